@@ -109,6 +109,7 @@ func (s *Scope) Invoke(function interface{}, opts ...InvokeOption) (err error) {
 	if err != nil {
 		return err
 	}
+	defer verifTraceInvoke(s, pl)(&err)
 
 	if err := shallowCheckDependencies(s, pl); err != nil {
 		return errMissingDependencies{
@@ -162,6 +163,7 @@ func (s *Scope) Invoke(function interface{}, opts ...InvokeOption) (err error) {
 
 	}
 
+	verifTraceEnter(s, "inv", s)
 	returned := s.invokerFn(reflect.ValueOf(function), args)
 	if len(returned) == 0 {
 		return nil
